@@ -6,6 +6,19 @@ Property theorems about `Molgri.HalfFold`, the model of `HalfRotobjVoronoi._calc
 soundness lemma for nearest-neighbour regions.  The sign-folded angle (`utils.py:239-257`) is in
 `Props/C04Real.lean` (it needs `Real.arccos`).
 
+Scope and OPEN clauses (claim: partial, DESIGN §5.4/§7):
+* The full-sphere matrix `A` is an *input* of every theorem below.  OPEN (not provable with this toolchain, checked by
+  the per-pair geometric oracle of the harness only): `A` is the true neighbour relation / face area of the Voronoi
+  diagram of the `2N` points on S³ (completeness of scipy/qhull), and it is symmetric and antipodally symmetric
+  (validated on every explored grid).
+* OPEN, and **false on the pinned tree** (open findings F13, F14 of `findings/C04.json`): "for every rotation grid with
+  at least four points the border matrix exists".  `RotobjVoronoi._calculate_borders` aborts the whole matrix with an
+  `AssertionError` (F13) when the Girard sum of a tiny face, computed from cosines rounded to 7 decimals, is negative
+  (library grids randomQ_84…101 and randomQ_N for every N ≥ 224 explored), and (F14) when `np.linalg.matrix_rank` of
+  the shared vertices of an ordinary face is 4 at machine precision.  Both sites are in `Model/FaceArea.lean`
+  (`girardArea`, `borderAreaChecked`, Float — outside the kernel), where the correspondence check reproduces the
+  `AssertionError` on the stored witnesses.  The theorems below therefore speak about the fold of a matrix that exists.
+
 Notation: `A` is the full-sphere `2N × 2N` matrix (adjacency, border areas or centre distances; produced on top of
 scipy/qhull, an input of the model), `B = foldMat truthy opp A` the matrix after the fold, `opp` the antipode map,
 `ent M d i j` the entry `(i, j)`.  Every theorem holds for **every** matrix, every fixed-point-free involution
@@ -370,6 +383,20 @@ example :
       [[0, 0, 0, 1], [0, 0, 1, 0], [0, 1, 0, 0], [1, 0, 0, 0]] true true
       = .ok [[some 0, some 1], [some 1, some 0]] := by
   decide +kernel
+
+/-- All hypotheses of `half_matrix_symm` at once, on a concrete grid (`N = 2`) and a concrete non-zero matrix, through
+    the executable validators that the driver also evaluates on every explored grid. -/
+example :
+    let G : List (List Rat) := [[1, 0, 0, 0], [0, 1, 0, 0]]
+    let A : List (List Rat) := [[0, 0, 0, 1], [0, 0, 1, 0], [0, 1, 0, 0], [1, 0, 0, 0]]
+    Sep (cover G) ∧
+    (∀ d, d < G.length → qInUpper (G.getD d []) = true ∧ qInUpper (negRow (G.getD d [])) = false) ∧
+    Square (2 * G.length) A ∧
+    (∀ a b, a < 2 * G.length → b < 2 * G.length → ent A 0 a b = ent A 0 b a) ∧
+    (∀ a b, a < 2 * G.length → b < 2 * G.length →
+      ent A 0 (oppIdx G.length a) (oppIdx G.length b) = ent A 0 a b) :=
+  ⟨sep_of_sepB (by decide +kernel), hup_of_hupB (by decide +kernel), square_of_squareB (by decide +kernel),
+   sym_of_symB (by decide +kernel), anti_of_antiB (by decide +kernel)⟩
 
 example : Invol 4 (oppFn [some 2, some 3, some 0, some 1]) := by
   intro j hj
